@@ -153,6 +153,8 @@ def inline_helpers(ctree, helpers, sigs, depth=0):
 
     def expand(name, args, res, line):
         tree, lo, params, fn = prep(name)
+        if fn.get('method') and len(args) == len(params) + 1 and args[0] == ('var', 'this'):
+            args = args[1:]          # same-object member helper: `this` is shared
         if len(args) != len(params):
             raise AnalysisBroken('helper %s: argument count differs at line %s' % (name, line))
         _INL[0] += 1
